@@ -7,6 +7,11 @@ and leave them untouched — is what this harness monitors on the real graphs: a
 serial scheduler executes the real task graph in seeded random topological orders (+FIFO/LIFO),
 fingerprints every dependency value before/after each task and every user source before/after
 every execution, and compares results across orders, with the threaded scheduler and NumPy.
+
+Two searches: (1) the operation catalogue (harness/props_ext/c10_catalog.py executor + checks, c10_ops.py ~180 public
+operations with their kwargs, c10_cases.py stratified sweeps: order statistics with overwrite_input/keepdims/method,
+moving-window kernels over first/last-chunk-of-length-1 chunkings and every min_count class, reductions, scans,
+out=/where=, setitem, store, contractions, fft, ...), (2) seeded random array programs + in-place-prone templates.
 """
 from __future__ import annotations
 
@@ -17,6 +22,7 @@ import time
 import numpy as np
 
 from harness import graphs, programs
+from harness.props_ext import c10_cases, c10_catalog
 
 
 def same(a, b):
@@ -221,6 +227,16 @@ def run_case(ctx, case, count=True):
                 ex = ctx.notes.setdefault("numpy_mismatch_examples", [])
                 if len(ex) < 3:
                     ex.append({"prog": prog, "root": r, "optimize": case["optimize"], "got": np.asarray(a).ravel()[:8].tolist(), "numpy": np.asarray(npenv[r]).ravel()[:8].tolist()})
+        # the source collections afterwards: the data behind from_array must survive every compute
+        for st in prog:
+            if st["op"] == "src" and st["out"] in pristine:
+                try:
+                    again = env[st["out"]].compute(scheduler="sync")
+                except Exception:
+                    continue
+                if not same(again, pristine[st["out"]]):
+                    fails.append(("source-collection-changed", f"{st['out']}.compute() after the computation no longer returns the source data: "
+                                  f"{pristine[st['out']].ravel()[:8].tolist()} -> {np.asarray(again).ravel()[:8].tolist()}"))
         if count:
             kinds = tuple(sorted({type(n).__name__ for x in xs for n in x._lowered_expr.walk()}))
             ctx.count(("prog", case["optimize"], kinds), n=0)
@@ -316,7 +332,18 @@ def run(ctx, replay=None):
         "persisted arrays, creation ops, concatenate=True blockwise) with 1-3 roots executed as ONE merged graph, x optimize-graph "
         "on/off, plus 17 templates aimed at the in-place-prone kernels; each graph executed in FIFO, LIFO and N seeded random "
         "topological orders with dependency fingerprinting, then by dask's sync and 4-thread schedulers; an evaluation = one "
-        "execution of one graph; distinct = (optimize flag, set of materialized layer classes)"
+        "execution of one graph; distinct = (optimize flag, set of materialized layer classes).  PLUS the operation catalogue "
+        "(props_ext/c10_ops: ~180 public operations; props_ext/c10_cases: stratified sweep enumerating in EVERY run "
+        "quantile/nanquantile x keepdims x overwrite_input x {reduced axis in one chunk, ragged, first chunk 1}, median/nanmedian, "
+        "percentile/nanpercentile, topk/argtopk, all reductions (axis/keepdims/split_every/ddof/dtype/out=), cumulative ops x method, "
+        "map_overlap(bottleneck.move_*) x min_count {default, 1, k} x rolling-axis chunking {first chunk 1, last chunk 1, all ones, "
+        "ragged < window, >= window, one chunk}, push, map_overlap boundaries, sliding_window_view reductions, ufunc out=/where=, "
+        "in-place spellings, clip/round/nan_to_num(copy=)/astype(copy=), setitem, store, tensordot/einsum/matmul, fft, linalg, "
+        "unique/searchsorted/histogram/bincount/take/shuffle, pad/roll/concatenate/reshape/...; x input stage {from_array block itself, "
+        "identity map_blocks, elementwise copy, slice view, merged+split views, persisted} x sibling consumer): each case on the per-root "
+        "merged graph AND on the joint graph of dask.compute, FIFO/LIFO/random orders, fingerprints of every dependency around every task "
+        "and of EVERY value at the end, two sync + two 4-thread computes, then x.compute() and a fresh from_array of identical data; "
+        "distinct there = (op, input stage, optimize) and (op, flag kwargs, chunk classes)"
     )
     ctx.assumptions = [
         "C10_topo_eval_unique assumes every task is a pure function of its dependency values; that assumption is MONITORED "
@@ -329,14 +356,19 @@ def run(ctx, replay=None):
     ]
     if replay is not None:
         case = replay["case"] if "case" in replay else replay
+        if case.get("kind") == "cat":
+            for sig, detail in c10_catalog.run_case(ctx, case) or []:
+                ctx.fail(sig, case, detail)
+            return
         for sig, detail in run_case(ctx, case) or []:
             ctx.fail(sig, case, detail)
         return
     norders = ctx.scale(3, 8)
     ctx.c10_pairs = []
     ctx.c10_limit = ctx.scale(1500, 12000)
-    n = ctx.scale(260, 6000)
-    budget = ctx.scale(35, 520)
+    catalogue(ctx, t_run)
+    n = ctx.scale(200, 6000)
+    budget = ctx.scale(48, 540)
     for it in range(n):
         if time.time() - t_run > budget:
             ctx.notes["stopped_early_at"] = it
@@ -363,6 +395,33 @@ def run(ctx, replay=None):
                    branch_key=lambda req, model: (model, min(len(req) // 50, 20)))
     if ctx.disagreements:
         ctx.notes["targeted_search"] = "every graph of this run was executed in all those orders and compared (search above)"
+
+
+def catalogue(ctx, t_run):
+    """the operation catalogue (harness/props_ext/c10_*): stratified sweeps, every case executed with dependency /
+    whole-graph fingerprints in several orders on the per-root and on the joint graph, computed twice by the sync
+    and the threaded scheduler, sources re-computed afterwards"""
+    rng = ctx.rng
+    sweeps = ctx.scale(2, 8)  # the time budget may cut the second sweep of a quick run short (never the first one's head)
+    budget = ctx.scale(32, 260)
+    norders = ctx.scale(2, 5)
+    sampled = set()
+    for sweep in range(sweeps):
+        cases = c10_cases.gen_cases(rng)
+        ctx.notes["cat.generated"] = ctx.notes.get("cat.generated", 0) + len(cases)
+        for c in cases:
+            if time.time() - t_run > budget:
+                ctx.notes["cat.stopped_early"] = ctx.notes.get("cat.stopped_early", 0) + 1
+                continue
+            opts = (True, False) if c.pop("both", False) else ((True,) if rng.random() < 0.5 else (False,))
+            for opt in opts:
+                case = dict(c, optimize=opt, orders=norders, oseed=rng.randrange(10**6), threads=ctx.scale(1, 2))
+                fails = c10_catalog.run_case(ctx, case)
+                if c["family"] not in sampled and fails is not None:
+                    sampled.add(c["family"])
+                    ctx.sample({"catalogue": c["family"], "op": c["op"], "kw": c["kw"], "chunks": [s["chunks"] for s in c["src"]], "pre": c["pre"]})
+                if fails:
+                    c10_catalog.report(ctx, case, fails)
 
 
 def known_probe(ctx):
